@@ -77,6 +77,11 @@ impl RttCalcuator {
     pub fn rto(&self) -> Duration {
         self.rto
     }
+
+    #[cfg(feature = "verif")]
+    pub(crate) fn verif_estimator(&self) -> (Duration, Duration) {
+        (self.srtt, self.rttvar)
+    }
 }
 
 #[cfg(test)]
